@@ -726,6 +726,11 @@ func c07CrossProcess(c *Ctx, tree *SrcTree, scriptPath map[string]string, disk m
 	}
 	run := func(f string, v variant, tag string) ([]byte, error) {
 		out := filepath.Join(work, fmt.Sprintf("out-%s-%s.%s", tag, v.name, c07Ext[f]))
+		if v.name != "tz-utc" {
+			// every variant but the first writes over an older, longer file at its target (a rebuild into the same dist
+			// directory): the bytes of the package are a function of the configuration, not of what was there before
+			_ = os.WriteFile(out, bytes.Repeat([]byte("older package at this path\n"), 40000), 0o644)
+		}
 		cmd := exec.Command(bin, "package", "-f", v.cfg, "-p", f, "-t", out)
 		cmd.Dir = v.dir
 		cmd.Env = append(append([]string{}, baseEnv...), v.env...)
